@@ -1,14 +1,22 @@
 #!/bin/bash
-# seedtest.sh <seed-id> <patch.diff> <prop> [<prop>...] : apply a seeded change to /repo, run the given checks (evidence and
-# replays go to build/seedruns/<seed-id>/), undo the change straight afterwards.
+# seedtest.sh <seed-id> <patch.diff> <prop> [<prop>...] : apply a seeded change, run the given checks (evidence and replays go to
+# build/seedruns/<seed-id>/), undo the change straight afterwards.
+# Default: the change is applied to /repo itself (git -C /repo apply ... git -C /repo checkout -- .).
+# With SEEDREPO=<scratch worktree of /repo> the change is applied there and the checks run with VERIF_REPO=$SEEDREPO
+# (used while a long background run is reading /repo).
 id=$1; patch=$2; shift 2
-if [ -n "$(git -C /repo status --porcelain --untracked-files=no)" ]; then echo "/repo is dirty"; exit 3; fi
+R=${SEEDREPO:-/repo}
+if [ -n "$(git -C $R status --porcelain --untracked-files=no)" ]; then echo "$R is dirty"; exit 3; fi
 out=/verif/build/seedruns/$id; mkdir -p $out/evidence $out/replays
-git -C /repo apply "$patch" || { echo "patch does not apply"; exit 3; }
-trap 'git -C /repo checkout -- . ; git -C /repo clean -fdq derive-ex-tests/tests 2>/dev/null' EXIT
+git -C $R apply "$patch" || { echo "patch does not apply"; exit 3; }
+trap 'git -C $R checkout -- . ; git -C $R clean -fdq derive-ex-tests/tests 2>/dev/null' EXIT
 for p in "$@"; do
   s=$(date +%s)
-  VERIF_EVIDENCE_DIR=$out/evidence VERIF_REPLAYS_DIR=$out/replays ./check $p --tier ${TIER:-quick} > $out/$p.log 2>&1; rc=$?
+  if [ "$R" = "/repo" ]; then
+    VERIF_EVIDENCE_DIR=$out/evidence VERIF_REPLAYS_DIR=$out/replays ./check $p --tier ${TIER:-quick} > $out/$p.log 2>&1; rc=$?
+  else
+    VERIF_REPO=$R VERIF_EVIDENCE_DIR=$out/evidence VERIF_REPLAYS_DIR=$out/replays ./check $p --tier ${TIER:-quick} > $out/$p.log 2>&1; rc=$?
+  fi
   e=$(date +%s)
   echo "$id $p rc=$rc $((e-s))s $(grep -cE '^VIOLATION' $out/$p.log) violation lines; $(grep -E '^(VIOLATION|UNDECIDED|OK)' $out/$p.log | head -1 | cut -c1-160)"
   grep -A1 -m2 '^VIOLATION' $out/$p.log | grep 'obligation/input' | cut -c1-260
